@@ -338,5 +338,35 @@ def r8_index_accumulation(chk):
     common.contradictory_lookups(chk, 'C18.R8', ['pysmi/codegen/jsondoc.py'])
 
 
+
+def r7_every_result_reaches_every_section(chk):
+    """in genIndex the loop over the compile results considers each of the four sections for every module: nothing
+    (no `continue`, `break` or `return`) lets an iteration leave before the later sections - a module without
+    MODULE-IDENTITY (every SMIv1 MIB) still has an enterprise, compliance statements and OIDs"""
+    model = chk.model
+    ci = model.cls(JSONDOC, 'JsonCodeGen')
+    o, fn = ci.find_method('genIndex')
+    chk.doc('C18.R7', 'JsonCodeGen.genIndex: the loop over (module, status) pairs contains no continue / break / return at '
+                      'its own level: each section (identity, enterprise, compliance, oids) is fed independently of the others')
+    loops = [n for n in fn.body if isinstance(n, ast.For) and 'items()' in norm(n.iter)]
+    chk.ob('C18.R7', 'genIndex/result-loop', len(loops) >= 1, where(ci.mod, fn), '%d loops over the results' % len(loops))
+    for lp in loops[:1]:
+        leave = []
+        def own_level(body):
+            for st in body:
+                if isinstance(st, (ast.Continue, ast.Break, ast.Return)):
+                    leave.append(st)
+                elif isinstance(st, (ast.If, ast.Try, ast.With)):
+                    for f in ('body', 'orelse', 'finalbody'):
+                        own_level(getattr(st, f, []) or [])
+                    for h in getattr(st, 'handlers', []) or []:
+                        own_level(h.body)
+        own_level(lp.body)
+        chk.ob('C18.R7', 'genIndex/no-early-exit-from-an-iteration', not leave,
+               where(ci.mod, leave[0]) if leave else where(ci.mod, lp),
+               'an iteration can be left early (`%s` under `%s`): the sections after it are skipped for that module' % (
+                   norm(leave[0]) if leave else '', norm(getattr(leave[0], '_parent', leave[0]))[:50] if leave else ''))
+
+
 RULES = [r1_componentwise_prefix, r2_attribute_chain, r3_sections_monotone, r4_ordering, r5_index_file_roundtrip,
-         r6_summary_objects, r7_build_index_call, r8_index_accumulation]
+         r6_summary_objects, r7_build_index_call, r8_index_accumulation, r7_every_result_reaches_every_section]
